@@ -19,6 +19,9 @@ type procCase struct {
 	Chain       int        `json:"chain"`
 	Script      []procRule `json:"script"`
 	Ops         [][]any    `json:"ops"`
+	// Decoy: the chain is given as two WithMiddleware options, the first from a slice with spare
+	// capacity that is also used to spawn a second, unrelated actor afterwards
+	Decoy bool `json:"decoy"`
 }
 
 type procRule struct {
@@ -296,12 +299,19 @@ func runProc(raw json.RawMessage) (any, error) {
 	}
 	// spawn
 	opts := []actor.OptFunc{actor.WithID("a"), actor.WithMaxRestarts(c.MaxRestarts), actor.WithRestartDelay(time.Microsecond)}
-	if c.Chain > 0 {
+	var common []actor.MiddlewareFunc
+	if c.Chain > 0 && !(c.Decoy && c.Chain >= 2) {
 		mws := make([]actor.MiddlewareFunc, c.Chain)
 		for i := range mws {
 			mws[i] = w.middleware(i)
 		}
 		opts = append(opts, actor.WithMiddleware(mws...))
+	} else if c.Chain >= 2 {
+		common = make([]actor.MiddlewareFunc, c.Chain-1, c.Chain+3)
+		for i := range common {
+			common[i] = w.middleware(i)
+		}
+		opts = append(opts, actor.WithMiddleware(common...), actor.WithMiddleware(w.middleware(c.Chain-1)))
 	}
 	spawnPanicked := false
 	func() {
@@ -329,6 +339,12 @@ func runProc(raw json.RawMessage) (any, error) {
 	if !quiesce() {
 		obs.Hang = true
 		return finish(), nil
+	}
+	if common != nil {
+		// an unrelated actor configured from the same slice of common middlewares
+		foreign := func(next actor.ReceiveFunc) actor.ReceiveFunc { return func(c *actor.Context) { next(c) } }
+		e.SpawnFunc(func(*actor.Context) {}, "decoy", actor.WithID("d"), actor.WithMiddleware(common...), actor.WithMiddleware(foreign))
+		quiesce()
 	}
 	for _, op := range c.Ops {
 		switch op[0].(string) {
